@@ -940,7 +940,8 @@ class Type3TagEmulation(nfc.tag.TagEmulation):
             service_block_list_item[2] = service_block_count[service_code]
 
         block_data = cmd_data[0:]
-        if len(block_data) % 16 != 0:
+        if len(block_data) % 16 != 0 or \
+                len(block_data) < 16 * len(service_block_list):
             return bytearray([255, 0xA2])
 
         for i, service_block_list_item in enumerate(service_block_list):
